@@ -436,7 +436,55 @@ def run(ctx):
            bool(lowers),
            "a negative bond type in the input array is stored into the uint32 column unchecked and "
            "becomes 4294967295 (BondList(3, [(0,1,-1)]))", init.lineno)
+    # ---------------- further clauses of the index / type discipline (argued Cython edits, round 2) -------------------------------
+    from ..exprnorm import canon as _canon
+    from ..facts import conjuncts as _conjuncts
+    from ..lints import integer_tests_accept_numpy
+    # an index that is an integer - of Python or of NumPy (an element of an index array) - selects the bonds of one atom
+    integer_tests_accept_numpy(ctx, BONDS, "R6.integer-index-accepts-numpy", 1)
+    # concatenate: every operand moves the offset on by its atom count - also one that has atoms but no bonds
+    cc_ = meths["concatenate"]
+    loops_ = [lp for lp in ast.walk(cc_) if isinstance(lp, ast.For) and any(isinstance(x, ast.AugAssign) and isinstance(x.target, ast.Name)
+                                                                             and x.target.id == "cum_atom_count" for x in ast.walk(lp))]
+    ctx.need(len(loops_) == 1, "the offset loop of BondList.concatenate")
+    lp_ = loops_[0]
+    direct_ = [x for x in lp_.body if isinstance(x, ast.AugAssign) and isinstance(x.target, ast.Name) and x.target.id == "cum_atom_count"
+               and isinstance(x.op, ast.Add) and has_code(x.value, "bond_list._atom_count")]
+    jumps_ = [x for b_ in lp_.body for x in ast.walk(b_) if isinstance(x, (ast.Continue, ast.Break, ast.Return))]
+    ctx.ob("R6.concatenate-offset-every-operand", BONDS, "BondList.concatenate", "cum_atom_count += bond_list._atom_count on every iteration",
+           len(direct_) == 1 and not jumps_,
+           "an operand without bonds still has atoms: skipping the offset update shifts the indices of every later operand and the atom count "
+           "of the result", lp_.lineno)
+    # remove_bonds: a bond is identified by its two atoms (the type of the bond in the argument does not matter)
+    rb_ = meths["remove_bonds"]
+    tests_ = [x for x in ast.walk(rb_) if isinstance(x, ast.If) and any(isinstance(y, ast.Assign) and has_code(y, "mask_v[i] = False") for y in x.body)]
+    ctx.need(len(tests_) == 1, "the comparison of BondList.remove_bonds")
+    got_ = sorted(repr(_canon(c_)) for c_ in _conjuncts(tests_[0].test))
+    want_ = sorted(repr(_canon(ast.parse(t_, mode="eval").body)) for t_ in ("all_bonds_v[i, 0] == rem_bonds_v[j, 0]", "all_bonds_v[i, 1] == rem_bonds_v[j, 1]"))
+    ctx.ob("R6.remove-bonds-by-atom-pair", BONDS, "BondList.remove_bonds", "a bond is removed when both atom indices match", got_ == want_,
+           "the bonds to remove are given by their atom pairs: a further condition (the bond type) keeps bonds the caller asked to remove", tests_[0].lineno)
+    # _invert_index: the table is filled with the marker that the duplicate test asks for
+    inv_ = src.func("_invert_index")
+    fills_ = [x.value.args[1] for x in ast.walk(inv_) if isinstance(x, ast.Assign) and isinstance(x.value, ast.Call) and call_name(x.value) == "np.full"
+              and len(x.value.args) >= 2]
+    dup_ = [x for x in ast.walk(inv_) if isinstance(x, ast.If) and any(isinstance(y, ast.Raise) for y in x.body)]
+    ctx.need(len(fills_) == 1 and len(dup_) == 1, "fill value and duplicate test of _invert_index")
+    want_dup = ast.Compare(left=ast.parse("inverse_index_v[index_val]", mode="eval").body, ops=[ast.NotEq()], comparators=[fills_[0]])
+    ctx.ob("R6.duplicate-index-refused", BONDS, "_invert_index", "inverse_index_v[index_val] != <fill value>",
+           repr(_canon(dup_[0].test)) == repr(_canon(want_dup)) and not dup_[0].orelse,
+           "an index that appears twice must be refused whatever its position: the test has to ask for exactly the marker the table was filled with",
+           dup_[0].lineno)
     ab = meths["add_bond"]
+    # the type is checked before anything is looked up or stored: as a guard clause at the top of the method
+    guards_ = []
+    for st_ in ab.body:
+        if isinstance(st_, (ast.For, ast.While, ast.With, ast.Try)) or isinstance(st_, ast.If) and not any(isinstance(y, ast.Raise) for y in st_.body):
+            break
+        if isinstance(st_, ast.If) and any(isinstance(y, ast.Raise) for y in st_.body):
+            guards_.append(st_)
+    ctx.ob("R5.bond-type-checked-first", BONDS, "BondList.add_bond", "if bond_type >= len(BondType): raise .. at the top of the method",
+           any(has_code(g_.test, "bond_type >= len(BondType)") for g_ in guards_),
+           "a bond that exists already is UPDATED: a type check that sits in the branch for new bonds lets an invalid type into the array", ab.lineno)
     ctx.ob("R5.bond-type-upper", BONDS, "BondList.add_bond", "bond_type >= len(BondType)",
            any(isinstance(n, ast.Compare) and has_code(n, "len(BondType)") and isinstance(n.ops[0], ast.GtE)
                for n in walk_local(ab)),
